@@ -84,7 +84,7 @@ def build_and_audit(theorems):
     axioms = {}
     cur = None
     text = r.stdout
-    for m in re.finditer(r"'([^']+)' (does not depend on any axioms|depends on axioms: \[([^\]]*)\])", text):
+    for m in re.finditer(r"'(\S+)' (does not depend on any axioms|depends on axioms: \[([^\]]*)\])", text):
         name = m.group(1)
         axs = [a.strip() for a in (m.group(3) or "").replace("\n", " ").split(",") if a.strip()]
         axioms[name] = axs
